@@ -19,6 +19,9 @@ CLAIMED = {
  "C10": ("7/C10", "value provenance of the revision across state machine, table layer and servers + CFG edge-cut on the linearizable flag + call-site table of the read helper",
          "Structural necessary conditions only: revision provenance Entry.Index -> CommandResult -> Result.Data -> response header (every command kind but the no-op reports its result; nobody else writes the header revision; the forwarding server returns the leader's message) and read-path selection (SyncRead exactly under linearizable, flag sources per call site). Linearizability of dragonboat reads is assumed, not decided.",
          "go/types+go/ssa; dragonboat index assignment and ReadIndex semantics"),
+ "C11": ("7/C11", "must-pass-through and path rules over the event loop and its sweep closure (answer/remove pairing in Peek/Pop and omission form), ownership of the heap key and of the callback/listener fields, channel-capacity constant facts, identity-based wiring check",
+         "Structural necessary conditions only: forwarding handlers return the queue's answer for the leader's revision; the applied callback follows the commit and prefers the leader index, wired to the same queue object; answered waiters leave the heap and only answered ones do; the heap key is immutable; the waiter channel is buffered and the loop has no other blocking operation; success release only under waiter.revision <= notified. Timeliness and fairness are not decided.",
+         "go/types+go/ssa; Go channel semantics (buffered send does not block); iter.Consume is synchronous"),
 }
 PENDING_REASON = "rules designed (DESIGN.md section 7), check not built yet"
 checks=[]; na=[]
